@@ -183,7 +183,7 @@ def odds(p):
 
 
 def check(ctx, fails, df, meta, out, r, snaps_ok):
-    payload = {'data': df.to_dict('list'), 'meta': meta}
+    payload = {'data': df.to_dict('list'), 'meta': meta, 'index': [i if isinstance(i, str) else int(i) for i in df.index]}
     n = len(df)
     otype = meta['outcome']
     for name, err in out['errors'].items():
@@ -261,6 +261,9 @@ def run(ctx):
     for i in range(n):
         otype = ['binary', 'normal', 'poisson'][i % 3]
         df, meta = datagen.cat_frame(ctx.rng, outcome=otype)
+        # the caller's row labels are not part of the data: default, permuted, gappy (a subset of a cohort), shifted, strings
+        df, kind = datagen.reindex(df, ctx.rng, kind=['range', 'shuffle', 'gappy', 'shift', 'str'][(i // 3) % 5])
+        meta['index'] = kind
         cases.append((df, meta))
     run_cases(ctx, fails, cases)
     report(ctx, fails)
@@ -271,6 +274,8 @@ def run_cases(ctx, fails, cases):
     for df, meta in cases:
         out = run_case(df, meta)
         outs.append(out)
+        # the specification is computed from the caller's rows (complete frames: the estimators keep them all, in order)
+        out['S'], out['A'], out['Y'] = np.asarray(df['S']), np.asarray(df['A']), np.asarray(df['Y'], dtype=float)
         if 'S' in out:
             e, ok = build_expr(out, meta)
         else:
@@ -286,6 +291,7 @@ def run_cases(ctx, fails, cases):
         ctx.count('outcome:' + meta['outcome'])
         ctx.count('covariates:%d' % meta['n_cov'])
         ctx.count('strata:%d' % meta['n_strata'])
+        ctx.count('index:' + meta.get('index', 'range'))
         ctx.nontriv([meta, df['Y'].tolist(), df['A'].tolist()])
         ctx.sample({'n': meta['n'], 'arities': meta['arities'], 'outcome': meta['outcome'],
                     'iptw_population_unstab': out.get('iptw', {}).get((False, 'population')),
@@ -307,5 +313,7 @@ def report(ctx, fails):
 def replay(ctx, payload):
     fails = []
     df = pd.DataFrame(payload['data'])
+    if payload.get('index'):
+        df.index = payload['index']
     run_cases(ctx, fails, [(df, payload['meta'])])
     report(ctx, fails)
